@@ -369,7 +369,7 @@ func runNative(repo, harnessDir string, entries []replayEntry, file string) ([]n
 		if st, serr := os.Stat(filepath.Join(repo, pkg)); serr == nil && st.IsDir() {
 			cmd.Dir = filepath.Join(repo, pkg)
 		}
-		cmd.Env = append(os.Environ(), "VH_REPLAY="+f)
+		cmd.Env = append(os.Environ(), "VH_REPLAY="+f, "VH_REPO="+repo)
 		ob, err := cmd.CombinedOutput()
 		os.Remove(bin)
 		sc := bufio.NewScanner(strings.NewReader(string(ob)))
